@@ -4,6 +4,7 @@ C07 — Reports are addressed right: values by variable id, findings by request 
 All theorems hold for every scalar type, every LU / SVD oracle.
 -/
 import Ezpz.Properties.C03
+import Ezpz.Model.Outcome
 import Ezpz.Proofs.Warnings
 set_option linter.unusedSectionVars false
 namespace Ezpz.C07
@@ -112,11 +113,85 @@ theorem failure_sizes_solve (reqs : List (Constraint α × Nat)) (g : List (Nat 
   have := failure_sizes _ _ _ _ _ _ hr
   exact ⟨this.1, p, this.2⟩
 
-/-- `SolveOutcome::final_value_point`. -/
-def finalValuePoint (o : Outcome α) (p : Pt) : Option (α × α) :=
-  match o.finalValues[p.x]?, o.finalValues[p.y]? with
-  | some x, some y => some (x, y)
-  | _, _ => none
+/-! ### Typed lookups (`solve_outcome.rs:52-86`, model `Ezpz/Model/Outcome.lean`) -/
+
+/-- C07.7a — `final_value_distance` returns the final value stored at the datum's id, and fails (the
+real code panics) exactly when the id is not a position of the final values. -/
+theorem finalValueDistance_spec (o : Outcome α) (id : Nat) :
+    o.finalValueDistance id = o.finalValues[id]? ∧
+    (o.finalValueDistance id = none ↔ o.finalValues.length ≤ id) := by
+  simp [Outcome.finalValueDistance]
+
+/-- C07.7b — `final_value_point` returns the values at the point's own x-id and y-id, whatever those
+ids are (not consecutive, not ordered, possibly equal). -/
+theorem finalValuePoint_spec (o : Outcome α) (p : Pt) (x y : α) :
+    o.finalValuePoint p = some (x, y) ↔ o.finalValues[p.x]? = some x ∧ o.finalValues[p.y]? = some y := by
+  unfold Outcome.finalValuePoint
+  split <;> simp_all
+
+/-- `final_value_point` succeeds exactly when both ids are positions of the final values. -/
+theorem finalValuePoint_isSome (o : Outcome α) (p : Pt) :
+    (o.finalValuePoint p).isSome ↔ p.x < o.finalValues.length ∧ p.y < o.finalValues.length := by
+  unfold Outcome.finalValuePoint
+  split
+  · rename_i x y hx hy
+    have h1 := (List.getElem?_eq_some_iff.mp hx).1
+    have h2 := (List.getElem?_eq_some_iff.mp hy).1
+    simp [h1, h2]
+  · rename_i h
+    simp only [Option.isSome_none, Bool.false_eq_true, false_iff, not_and]
+    intro h1 h2
+    exact h _ _ (List.getElem?_eq_getElem h1) (List.getElem?_eq_getElem h2)
+
+/-- C07.7c — `final_value_circle` returns the centre's two values and the value at the radius id. -/
+theorem finalValueCircle_spec (o : Outcome α) (c : Circ) (cx cy r : α) :
+    o.finalValueCircle c = some ((cx, cy), r) ↔
+      o.finalValues[c.center.x]? = some cx ∧ o.finalValues[c.center.y]? = some cy ∧
+      o.finalValues[c.radius]? = some r := by
+  unfold Outcome.finalValueCircle
+  split
+  · rename_i ctr r' hc hr
+    obtain ⟨cx', cy'⟩ := ctr
+    have := (finalValuePoint_spec o c.center cx' cy').mp hc
+    simp only [Outcome.finalValueDistance] at hr
+    simp only [Option.some.injEq, Prod.mk.injEq]
+    constructor
+    · rintro ⟨⟨rfl, rfl⟩, rfl⟩; exact ⟨this.1, this.2, hr⟩
+    · rintro ⟨h1, h2, h3⟩
+      rw [this.1] at h1; rw [this.2] at h2; rw [hr] at h3
+      simp_all
+  · rename_i h
+    constructor
+    · intro h'; simp at h'
+    · rintro ⟨h1, h2, h3⟩
+      exact absurd ((finalValuePoint_spec o c.center cx cy).mpr ⟨h1, h2⟩) (by
+        intro hp; exact h _ _ hp (by simpa [Outcome.finalValueDistance] using h3))
+
+/-- C07.7d — `final_value_arc` returns, as `(a, b, center)`, the values at the ids of the arc's start,
+end and centre **each looked up by its own ids** — no assumption that the six ids are consecutive
+or in any order. -/
+theorem finalValueArc_spec (o : Outcome α) (a : ArcD) (s e c : α × α) :
+    o.finalValueArc a = some (s, e, c) ↔
+      o.finalValuePoint a.start = some s ∧ o.finalValuePoint a.stop = some e ∧
+      o.finalValuePoint a.center = some c := by
+  unfold Outcome.finalValueArc
+  split
+  · rename_i s' e' c' hs he hc
+    simp only [Option.some.injEq, Prod.mk.injEq]
+    constructor
+    · rintro ⟨rfl, rfl, rfl⟩; exact ⟨hs, he, hc⟩
+    · rintro ⟨h1, h2, h3⟩
+      rw [hs] at h1; rw [he] at h2; rw [hc] at h3
+      simp_all
+  · rename_i h
+    constructor
+    · intro h'; simp at h'
+    · rintro ⟨h1, h2, h3⟩; exact absurd h3 (h _ _ _ h1 h2)
+
+/-- Non-vacuity / regression example: an arc whose ids are neither consecutive nor ordered
+(centre 4,0; start 2,5; end 1,1) over six final values. -/
+example : (⟨[], [10, 11, 12, 13, 14, 15], 0, [], 0, none⟩ : Outcome Nat).finalValueArc
+    ⟨⟨4, 0⟩, ⟨2, 5⟩, ⟨1, 1⟩⟩ = some ((12, 15), (11, 11), (14, 10)) := by decide
 
 /-- C07.8 (partial) — **values by id**, under the hypothesis that the guess list is dense and in
 order (`ids = 0, 1, …, n-1`): the start value used for variable `v` is the guess given for id `v`.
